@@ -87,7 +87,11 @@ func fwdIEs(f FAR) []*ie.IE {
 func CreateFAR(f FAR) *ie.IE {
 	ies := []*ie.IE{ie.NewFARID(f.ID), ie.NewApplyAction(f.Action)}
 	if f.HasFwd {
-		ies = append(ies, ie.NewForwardingParameters(fwdIEs(f)...))
+		fw := fwdIEs(f)
+		if f.EndMarker {
+			fw = append(fw, ie.NewPFCPSMReqFlags(0x02))
+		}
+		ies = append(ies, ie.NewForwardingParameters(fw...))
 	}
 	return ie.NewCreateFAR(ies...)
 }
